@@ -176,6 +176,11 @@ def js_number(n: Union[int, float]) -> Union[int, float]:
     return n
 
 
+# Largest element count (or byte length) an array is given at once: new
+# Array(n), typed arrays and buffers, and assignments to length allocate it
+MAX_ARRAY_LENGTH = 2**28
+
+
 def to_integer(value: JSValue, default: int = 0) -> int:
     """ToIntegerOrInfinity for index, count and digit arguments.
 
